@@ -43,6 +43,7 @@ type Config struct {
 	AbstractTime bool
 	NoSlice      bool
 	NoPOR        bool
+	Debug        bool
 }
 
 type PathOpts struct {
